@@ -1,6 +1,11 @@
 #!/bin/sh
-# Offline setup: nothing to build (pure Python on /venv, which already has casadi, numpy, rockit-from-/repo).
+# Offline setup: pure Python on /venv (casadi, numpy, rockit-from-/repo are there already).
+# networkx (needed by rockit's SplineMethod when it transcribes; C20 enumerates its model restrictions) comes from the
+# offline wheelhouse into /verif/.deps, which ./check appends to PYTHONPATH; /venv itself is left untouched.
 set -e
 cd "$(dirname "$0")"
 mkdir -p evidence replays
-PYTHONPATH=/repo /venv/bin/python -c "import casadi, numpy, rockit; print('rockit from', rockit.__file__)"
+if ! PYTHONPATH="$PWD/.deps" /venv/bin/python -c "import networkx" 2>/dev/null; then
+  PIP_NO_INDEX=1 /venv/bin/pip install -q --no-index --find-links /opt/veriftools/wheels --target "$PWD/.deps" networkx
+fi
+PYTHONPATH="/repo:$PWD/.deps" /venv/bin/python -c "import casadi, numpy, rockit, networkx; print('rockit from', rockit.__file__, '| networkx', networkx.__version__)"
